@@ -4,6 +4,7 @@
        role   1 = AsyncFIXClient (initiator), 2 = AsyncFIXDummyServer (acceptor)
        op     [0] connect | [1, type, seq, pd, a, b] inbound frame | [2, type, seq, pd, a, b] send_msg
               | [3, with_logout] disconnect | [4] restart at this quiescent point
+              | [5, type, seq, pd, a, b, d] send_msg over a transport that raises in write() (d = 0) / in drain() after the write (d = 1)
        k      number of effects (write / drain / SQL statement / commit) of the LAST incarnation of ops1
               after which the process dies; -1 = graceful stop after ops1
    answer    [steps1, effect log of the last incarnation, [[restored nin, restored nout], steps2, new wire] ...]
@@ -30,7 +31,7 @@ Definition st_code (s : cstate) : Z :=
   end.
 
 Definition exc_code (e : option exc) : Z :=
-  match e with None => 0 | Some XConn => 1 | Some XDup => 2 | Some XAssert => 3 | Some XDupTag => 4 end.
+  match e with None => 0 | Some XConn => 1 | Some XDup => 2 | Some XAssert => 3 | Some XDupTag => 4 | Some XIO => 5 end.
 
 Definition sx_frame (f : frame) : sx :=
   SL [SI (mtype_code (f_type f)); SI (f_seq f); sx_of_bool (f_pd f); SI (f_a f); SI (f_b f)].
@@ -61,6 +62,11 @@ Definition get_op (s : sx) : option op :=
   | SL [SI 2; t; n; pd; a; b] => option_map OSend (get_frame t n pd a b)
   | SL [SI 3; b] => option_map ODisc (get_bool b)
   | SL [SI 4] => Some ORestart
+  | SL [SI 5; t; n; pd; a; b; d] =>
+      match get_frame t n pd a b, get_bool d with
+      | Some m, Some d => Some (OSendFault d m)
+      | _, _ => None
+      end
   | _ => None
   end.
 
